@@ -275,6 +275,7 @@ PaddingOnlyAppends ==
      \E j \in DOMAIN out.nics[r.name] :
         LET o == out.nics[r.name][j] IN
         /\ o.family = FamName(r.fam) /\ o.netmask = r.mask /\ o.broadcast = r.bcast /\ o.ptp = r.ptp
+        /\ Len(o.address) >= Len(r.addr)
         /\ SubSeq(o.address, 1, Len(r.addr)) = r.addr
         /\ \A g \in (Len(r.addr) + 1)..Len(o.address) : o.address[g] = "00" /\ r.fam = 17 /\ Len(o.address) = 6
 NoRowLost ==
